@@ -46,12 +46,14 @@ def main():
     out["after"] = listing(spec["folder"], spec.get("list_after", []))
     if spec.get("followups"):
         out["followups"], errs = [], []
-        for f in spec["followups"]:
+        for i, f in enumerate(spec["followups"]):
+            mark("fu%d" % i)
             try:
                 out["followups"].append(srv.request(f["method"], f["path"], data=f.get("data"), login=f.get("login"), **f.get("headers", {}))[0])
             except BaseException as e:
                 out["followups"].append(-1)
                 errs.append(repr(e))
+        mark("fu%d" % len(spec["followups"]))
         if errs:
             out["followup_errors"] = errs
     json.dump(out, open(sys.argv[2], "w"))
